@@ -714,7 +714,14 @@ func (e *Engine) bitsLen(x *Term, w int) *Term {
 // hashResult builds a [32]byte result of an (optionally injective) UF.
 func (e *Engine) hashResult(name string, args []*Term, inj bool) Value {
 	if e.IntMode {
-		panic(unsupported{"32-byte UF in int mode"})
+		// int mode: 32 byte-valued applications (no injectivity instances: a weaker idealisation)
+		out := make(array, 32)
+		for i := 0; i < 32; i++ {
+			b := e.ufApp(fmt.Sprintf("%s.byte%d", name, i), IntSort, args)
+			e.pcAssertSilent(e.rangeCond(b, 8, false))
+			out[i] = b
+		}
+		return out
 	}
 	r := e.ufApp(name, BVSort(256), args)
 	if inj && !e.Concrete {
